@@ -4,7 +4,7 @@
    Exp/ExportDoc.v (the supported schema in canonical order, and the tolerated differences). *)
 From Coq Require Import List NArith ZArith Bool.
 From RPFT Require Import Base.Sexp Base.PyStr Base.Result Base.Json Gen.Tables
-  Exp.Load Exp.Render Exp.ExportDoc Exp.ExportFacts.
+  Exp.Load Exp.Render Exp.ExportDoc Exp.ExportFacts Exp.CaseFacts.
 Import ListNotations.
 
 (* ---- per-class round trips: render (load (emit x)) = norm (emit x) *)
@@ -85,3 +85,23 @@ Theorem C05_witnesses_idempotent :
           [w_typed_field; w_group_attrs; w_category_order; w_exit_order; w_shared_exit; w_canonical] = true.
 Proof. exact witnesses_idempotent. Qed.
 Print Assumptions C05_witnesses_idempotent.
+
+(* router cases: every test type, every argument list its validator accepts *)
+Theorem C05_case_roundtrip : forall u t c args,
+  u <> [] -> mem_str t test_names = true -> valid_case t args ->
+  rmap render_case (load_case (emit_case u t c args)) = Ok (emit_case u t c args).
+Proof. exact case_roundtrip. Qed.
+Print Assumptions C05_case_roundtrip.
+
+Example C05_case_roundtrip_nonvacuous :
+  valid_case [104; 97; 115; 95; 112; 104; 111; 110; 101]%N [JStr [82; 87]%N]
+  /\ mem_str [104; 97; 115; 95; 112; 104; 111; 110; 101]%N test_names = true
+  /\ valid_case [104; 97; 115; 95; 116; 101; 120; 116]%N [].
+Proof. exact case_roundtrip_nonvacuous. Qed.
+Print Assumptions C05_case_roundtrip_nonvacuous.
+
+(* the tests whose arguments from_dict drops are exactly tests that accept no argument (two
+   regenerated tables: RouterCase.NO_ARGS_TESTS vs the validators of TEST_VALIDATIONS) *)
+Theorem C05_no_args_tests_take_no_arguments : no_args_take_none = true.
+Proof. exact no_args_take_none_true. Qed.
+Print Assumptions C05_no_args_tests_take_no_arguments.
